@@ -216,6 +216,15 @@ def part(ctx, gen_mesh):
         p = os.path.join(d, 'm%d.vtp' % m)
         written = write_vtp(p, ctx.rng, vs, polys)
         files.append((p, 'vtp', [], (written, polys))); note('vtp')
+    # --- witnesses of the known finding impl:stl-reader-eof-handling (getSignificantLine at end of file)
+    WFACET = 'facet normal 0 0 1\nouter loop\nvertex 0 0 0\nvertex 1 0 0\nvertex 0 1 0\nendloop\nendfacet'
+    for name, text in (('w_eof_newline.stl', 'solid a\n' + WFACET + '\n'),                 # no endsolid, final newline: EOF is allowed after 2 lines
+                       ('w_eof_lastline.stl', 'solid a\n' + WFACET)):                      # last line without newline
+        p = os.path.join(d, name); open(p, 'w').write(text)
+        tl, vals = tokenize_ascii(p); files.append((p, 'asc', ['ASC %d' % len(tl)] + tl, vals)); note('ascii-stl:eof-witness')
+    p = os.path.join(d, 'w_solid_binary_final_newline.stl')
+    write_binary_stl(p, ctx.rng, [[0.0, 0.0, 0.0], [1.0, 0.0, 0.0], [0.0, 1.0, 0.0]], [[0, 1, 2]], 'zero', 'solid'); open(p, 'ab').write(b'\n')
+    files.append((p, 'bin', ['BIN ' + p], None)); note('binary-stl:eof-witness')
     rc, oc, ec = sh([exe], input='\n'.join(f[0] for f in files) + '\n', timeout=1200)
     if rc != 0 or 'DONE' not in oc: ctx.broken.append(('correspondence:C36io:harness', 'io harness failed rc=%d %s' % (rc, ec[-300:])))
     rc2, om, em = sh([os.path.join(exd, 'drv')], input='\n'.join(l for f in files for l in f[2]) + '\n', timeout=1800)
@@ -225,7 +234,7 @@ def part(ctx, gen_mesh):
     for l in om.split('\n'):
         if l.startswith('NV ') or l == 'THROW': cur = [l]; mb.append(cur)
         elif cur is not None and l and l != 'DONE': cur.append(l)
-    dis = []; k = 0; n = 0; throws = 0
+    dis = []; eof_known = []; k = 0; n = 0; throws = 0
     for (p, kind, cmds, data), a in zip(files, ib):
         n += 1
         a_throw = bool(a) and a[0].startswith('THROW')
@@ -240,7 +249,14 @@ def part(ctx, gen_mesh):
         b_throw = b[0] == 'THROW'
         if a_throw or b_throw:
             throws += 1
-            if a_throw != b_throw: dis.append((p, kind, a[:1], b[:1]))
+            if a_throw != b_throw:
+                raw = open(p, 'rb').read()
+                # known finding: the line reader of the STL loader mistakes "no more lines" for a read error when the file ends
+                # with a newline, and drops a last line that has no newline
+                if a_throw and kind in ('asc', 'bin') and (('error while reading file' in a[0] and raw.endswith(b'\n')) or
+                                                            ('unexpected end of file' in a[0] and not raw.endswith(b'\n'))):
+                    eof_known.append((p, kind, a[:1], b[:1]))
+                else: dis.append((p, kind, a[:1], b[:1]))
             continue
         bv = [l.split()[1:] for l in b if l.startswith('V ')]; bf = [l[1:].split() for l in b if l.startswith('F')]
         good = a[0] == b[0] and af == bf and len(av) == len(bv)
@@ -254,6 +270,10 @@ def part(ctx, gen_mesh):
     ctx.cov['rule'] = (ctx.cov.get('rule') or '') + ' || file formats: %d meshes written as binary STL (attribute words zero / small / one non-zero / colour / random; text, zero and "solid" headers; ' \
         'trailing bytes; truncated or over-counted files), ASCII STL (canonical, facetnormal/outerloop, without loops, with comments/colour/upper case; defective), OBJ (plain, negative and ' \
         'interleaved indices, i/t/n forms, continuation lines) and VTP; evaluation = one file loaded and compared with the extracted reader (VTP: with what was written)' % nmesh
+    ctx.extra['mesh_files']['stl_reader_eof_handling_hits'] = [os.path.basename(x[0]) for x in eof_known]
+    for p, kind, a, b in eof_known[:1]:
+        ctx.report('impl:stl-reader-eof-handling', 'the STL loader refuses a file the format model accepts, at end of file (%s): %s' % (os.path.basename(p), a[0][:300]),
+                   {'failing_input': p, 'impl': a, 'model': b})
     for p, kind, a, b in dis[:1]:
         ctx.broken.append(('correspondence:C36io', 'PolygonalMesh loader and extracted reader differ on %s (%s): impl=%s model=%s' % (os.path.basename(p), kind, a, b)))
         keep = os.path.join(VERIF, 'replay', 'C36', os.path.basename(p)); os.makedirs(os.path.dirname(keep), exist_ok=True); shutil.copy(p, keep)
